@@ -60,7 +60,9 @@ PLAN = {
     },
     "C10": {
         "quick": [S("hook-default")],
-        "thorough": [S("hook-default")],
+        # "too large is never waivable" also for one slice longer than 4 GiB (C11's section; 35 s per variant, so thorough only -
+        # on every change the quick tier of C11 runs it)
+        "thorough": [S("hook-default"), S("hook-explore", tag="huge-slice", check="C11", only="single-huge-update")],
     },
     "C03": {
         # the chunking paths have an `unsafe`-feature variant of their own (pointer-based tail handling is a typical place)
@@ -85,6 +87,8 @@ PLAN = {
     },
     "C17": {
         "quick": [S("hook-default"), S("m2-default-unsafe", tag="children"),
+                  # a Serializer that changes its is_human_readable() answer, in the serde + unsafe build (str via from_utf8_unchecked)
+                  S("serde-unsafe", tag="serde-flip", check="C16", only="flipping"),
                   # concurrent first calls under Miri's data-race detector: 10 groups, one interpreter process each
                   # ... plus a 40-item selection of the interpreter work list (error paths of the parsers, one of each operation kind)
                   S("miri-plain-unsafe", tag="miri-race", miri={"depth": 1, "shards": 16, "kinds": "race-quick,@quick"}),
@@ -160,6 +164,14 @@ PLAN = {
         "thorough": [S("hook-default"), S("m3-none", tag="nosimd"), S("hook-explore", tag="huge-slice", check="C11", only="single-huge-update")],
     },
 }
+
+# C17 re-runs other properties' enumerations under monitor builds (overflow checks, ASan); the operation-sequence
+# sections (E7) are about results, run in those properties' own checks, and are far too slow unoptimised: left out there.
+for _tier in ("quick", "thorough"):
+    for _s in PLAN["C17"][_tier]:
+        if _s.get("check"):
+            _s.setdefault("env", {})
+            _s["env"] = dict(_s["env"], VERIF_SKIP="sequences")
 
 def _lt(technique, text, ref, note, assumptions):
     return {"technique": technique, "text": text, "design_ref": ref, "note": note, "assumptions": assumptions}
